@@ -35,10 +35,12 @@ package consensus
 
 // seconds <-> nanoseconds used for the block / proposal timestamp
 //@ func secToNanoSec
+//@   params s
 //@   loops 0
 //@   ensures [C19] @exact result == s * 1000000000
 //@   modifies nothing
 //@ func nanoSecToSec
+//@   params ns
 //@   loops 0
 //@   requires ns / 1000000000 <= 4294967295
 //@   ensures [C19] @exact result == ns / 1000000000
@@ -48,60 +50,88 @@ package consensus
 // ---- bodies: every field goes into the encoded structure and comes back from it ----
 
 //@ func (prepareRequest).EncodeBinary
+//@   recvname p
+//@   params w
 //@   loops 0
 //@   modifies gEncoded
 //@   at call *.Encode: assert [C19] @allFields arg0.Timestamp == p.timestamp && arg0.Nonce == p.nonce && sametable(arg0.TransactionHashes, p.transactionHashes)
 //@   ensures [C19] @oneValue gEncoded == old(gEncoded) + 1
 //@ func (*prepareRequest).DecodeBinary
+//@   recvname p
+//@   params r
 //@   loops 0
 //@   modifies $decoded, heap prepareRequest.*, heap prepareRequestAux.*, heap box.*
 //@   ensures [C19] @allFields implies(result == nil, p.timestamp == decoded(prepareRequestAux).Timestamp && p.nonce == decoded(prepareRequestAux).Nonce && sametable(p.transactionHashes, decoded(prepareRequestAux).TransactionHashes))
 //@ func (prepareResponse).EncodeBinary
+//@   recvname p
+//@   params w
 //@   loops 0
 //@   modifies gEncoded
 //@   at call *.Encode: assert [C19] @allFields arg0.PreparationHash == p.preparationHash
 //@ func (*prepareResponse).DecodeBinary
+//@   recvname p
+//@   params r
 //@   loops 0
 //@   modifies $decoded, heap prepareResponse.*, heap prepareResponseAux.*, heap box.*
 //@   ensures [C19] @allFields implies(result == nil, p.preparationHash == decoded(prepareResponseAux).PreparationHash)
 //@ func (changeView).EncodeBinary
+//@   recvname c
+//@   params w
 //@   loops 0
 //@   modifies gEncoded
 //@   at call *.Encode: assert [C19] @allFields arg0.Timestamp == c.timestamp
 //@ func (*changeView).DecodeBinary
+//@   recvname c
+//@   params r
 //@   loops 0
 //@   modifies $decoded, heap changeView.*, heap changeViewAux.*, heap box.*
 //@   ensures [C19] @allFields implies(result == nil, c.timestamp == decoded(changeViewAux).Timestamp)
 //@   ensures [C19] @viewKept c.newViewNumber == old(c.newViewNumber)
 //@ func (recoveryRequest).EncodeBinary
+//@   recvname m
+//@   params w
 //@   loops 0
 //@   modifies gEncoded
 //@   at call *.Encode: assert [C19] @allFields arg0.Timestamp == m.timestamp
 //@ func (*recoveryRequest).DecodeBinary
+//@   recvname m
+//@   params r
 //@   loops 0
 //@   modifies $decoded, heap recoveryRequest.*, heap recoveryRequestAux.*, heap box.*
 //@   ensures [C19] @allFields implies(result == nil, m.timestamp == decoded(recoveryRequestAux).Timestamp)
 //@ func (preCommit).EncodeBinary
+//@   recvname c
+//@   params w
 //@   loops 0
 //@   modifies gEncoded
 //@   at call *.Encode: assert [C19] @allFields arg0.Magic == c.magic
 //@ func (*preCommit).DecodeBinary
+//@   recvname c
+//@   params r
 //@   loops 0
 //@   modifies $decoded, heap preCommit.*, heap preCommitAux.*, heap box.*
 //@   ensures [C19] @allFields implies(result == nil, c.magic == decoded(preCommitAux).Magic)
 //@ func (commit).EncodeBinary
+//@   recvname c
+//@   params w
 //@   loops 0
 //@   modifies gEncoded
 //@   at call *.Encode: assert [C19] @allFields sametable(arg0.Signature, c.signature)
 //@ func (*commit).DecodeBinary
+//@   recvname c
+//@   params r
 //@   loops 0
 //@   modifies $decoded, heap commit.*, heap commitAux.*, heap box.*
 //@   ensures [C19] @allFields implies(result == nil, sametable(c.signature, decoded(commitAux).Signature))
 //@ func (amevCommit).EncodeBinary
+//@   recvname c
+//@   params w
 //@   loops 0
 //@   modifies gEncoded
 //@   at call *.Encode: assert [C19] @allFields sametable(arg0.Data, c.data)
 //@ func (*amevCommit).DecodeBinary
+//@   recvname c
+//@   params r
 //@   loops 0
 //@   modifies $decoded, heap amevCommit.*, heap amevCommitAux.*, heap box.*
 //@   ensures [C19] @allFields implies(result == nil, sametable(c.data, decoded(amevCommitAux).Data))
@@ -109,11 +139,14 @@ package consensus
 // ---- block header: the hashed and signed data is exactly the header, one encoded value ----
 
 //@ func (base).EncodeBinary
+//@   recvname b
+//@   params w
 //@   loops 0
 //@   modifies gEncoded
 //@   at call *.Encode: assert [C19] @allFields arg0.ConsensusData == b.ConsensusData && arg0.Index == b.Index && arg0.Timestamp == b.Timestamp && arg0.Version == b.Version && arg0.MerkleRoot == b.MerkleRoot && arg0.PrevHash == b.PrevHash && arg0.NextConsensus == b.NextConsensus
 //@   ensures [C19] @oneValue gEncoded == old(gEncoded) + 1
 //@ func (*neoBlock).GetHashData
+//@   recvname b
 //@   loops 0
 //@   modifies gEncoded
 // what is encoded is this block's own header, not a copy that was changed on the way
@@ -122,6 +155,7 @@ package consensus
 // the bytes handed out are this call's own: no other payload's or block's encoding can later change them
 //@   ensures [C19] @ownBytes fresh(result)
 //@ func (*amevBlock).GetHashData
+//@   recvname b
 //@   loops 0
 //@   modifies gEncoded
 // what is encoded is this block's own header, not a copy that was changed on the way
@@ -142,11 +176,15 @@ package consensus
 //@   modifies $decoded, heap box.*, heap prepareRequest.*, heap prepareResponse.*, heap changeView.*, heap commit.*, heap amevCommit.*, heap preCommit.*, heap recoveryRequest.*, heap recoveryMessage.*, heap prepareRequestAux.*, heap prepareResponseAux.*, heap changeViewAux.*, heap commitAux.*, heap amevCommitAux.*, heap preCommitAux.*, heap recoveryRequestAux.*, heap recoveryMessageAux.*
 
 //@ func (message).EncodeBinary
+//@   recvname m
+//@   params w
 //@   loops 0
 //@   modifies gEncoded
 //@   requires m.payload != nil
 //@   at call *.Encode: assert [C19] @allFields arg0.CMType == m.cmType && arg0.ViewNumber == m.viewNumber
 //@ func (*message).DecodeBinary
+//@   recvname m
+//@   params r
 //@   loops 0
 // a ChangeView body gets its target view from the envelope: view + 1 as a byte (255 wraps to 0, deliberately total)
 //@   wraps *
@@ -156,6 +194,8 @@ package consensus
 //@ ghost gMarshals Int
 //@ ghost gPayloadEncodes Int
 //@ func (Payload).EncodeBinary
+//@   recvname p
+//@   params w
 //@   loops 0
 //@   modifies gEncoded, gPayloadEncodes
 //@   ghost gPayloadEncodes = gPayloadEncodes + 1
@@ -163,6 +203,8 @@ package consensus
 //@   requires p.message.payload != nil
 //@   at call *.Encode: assert [C19] @allFields arg0.Version == p.version && arg0.ValidatorIndex == p.validatorIndex && arg0.PrevHash == p.prevHash && arg0.Height == p.height
 //@ func (*Payload).DecodeBinary
+//@   recvname p
+//@   params r
 //@   loops 0
 //@   requires p.hash == nil
 //@   at call *.Decode: ghost gPayloadAux = arg0
@@ -172,10 +214,12 @@ package consensus
 // ---- the hash of a payload is computed from its present content: the cache field is never filled ----
 
 //@ func NewConsensusPayload
+//@   params t, height, validatorIndex, viewNumber, consensusMessage
 //@   loops 0
 //@   ensures [C19] @fresh result != nil
 //@   ensures [C19] @asGiven as(Payload, result).height == height && as(Payload, result).message.viewNumber == viewNumber && as(Payload, result).validatorIndex == validatorIndex && as(Payload, result).message.cmType == t && as(Payload, result).message.payload == consensusMessage && as(Payload, result).hash == nil && as(Payload, result).version == 0
 //@ func fromPayload
+//@   params t, recovery, p
 //@   loops 0
 //@   modifies nothing
 //@   ensures [C19] @freshObject fresh(result)
@@ -183,6 +227,8 @@ package consensus
 //@   ensures [C19] @fresh result != nil && result.hash == nil && result.version == 0 && result.validatorIndex == 0
 //@   ensures [C19] @sameSlot result.message.cmType == t && result.message.viewNumber == recovery.ViewNumber() && result.height == recovery.Height() && result.message.payload == p
 //@ func (*Payload).SetValidatorIndex
+//@   recvname p
+//@   params i
 //@   loops 0
 //@   modifies heap Payload.validatorIndex
 //@   requires p.hash == nil
@@ -191,10 +237,13 @@ package consensus
 //@   ensures [C19] @noStaleHash p.hash == nil
 //@   ensures [C19] @restKept p.version == old(p.version) && p.prevHash == old(p.prevHash) && p.height == old(p.height) && p.message.cmType == old(p.message.cmType) && p.message.viewNumber == old(p.message.viewNumber) && p.message.payload == old(p.message.payload)
 //@ func (*Payload).UnmarshalUnsigned
+//@   recvname p
+//@   params data
 //@   loops 0
 //@   requires p.hash == nil
 //@   ensures [C19] @noStaleHash p.hash == nil
 //@ func (*Payload).Hash
+//@   recvname p
 //@   loops 0
 //@   requires p.hash == nil && p.message.payload != nil
 //@   modifies gEncoded, gHashed, gLastHash, gMarshals, gPayloadEncodes
@@ -204,6 +253,7 @@ package consensus
 //@   ensures [C19] @noStaleHash p.hash == nil
 //@   ensures [C19] @contentKept p.version == old(p.version) && p.validatorIndex == old(p.validatorIndex) && p.prevHash == old(p.prevHash) && p.height == old(p.height) && p.message.cmType == old(p.message.cmType) && p.message.viewNumber == old(p.message.viewNumber) && p.message.payload == old(p.message.payload)
 //@ func (Payload).MarshalUnsigned
+//@   recvname p
 //@   loops 0
 //@   modifies gEncoded, gMarshals, gPayloadEncodes
 //@   ghost gMarshals = gMarshals + 1
@@ -222,6 +272,8 @@ package consensus
 //@ ghost gProposalVersion Int
 //@ ghost gProposalPrevHash Ref
 //@ func (*recoveryMessage).AddPayload
+//@   recvname m
+//@   params p
 //@   loops 0
 //@   requires p != nil
 //@   ghost gProposalVersion = ite(p.Type() == dbft.PrepareRequestType, as(Payload, p).version, gProposalVersion)
@@ -242,9 +294,12 @@ package consensus
 //@   pure
 //@   ensures emod(result, 1000000000) == 0 && result / 1000000000 <= 4294967295 && result >= 0
 //@ func (prepareRequest).Timestamp
+//@   recvname p
 //@   loops 0
 //@   ensures [C19] @wholeSeconds emod(result, 1000000000) == 0 && result / 1000000000 <= 4294967295 && result == p.timestamp * 1000000000
 //@ func (*recoveryMessage).GetPrepareRequest
+//@   recvname m
+//@   params p, _, ind
 //@   loops 0
 //@   requires p != nil
 //@   ensures [C19] @none implies(old(m.prepareRequest) == nil, result == nil)
@@ -264,6 +319,8 @@ package consensus
 // the responses rebuilt from a recovery message: one per stored responder, in the recovery message's slot,
 // each carrying the hash of the stored proposal
 //@ func (*recoveryMessage).GetPrepareResponses
+//@   recvname m
+//@   params p, _
 //@   loops 1
 //@   requires p != nil
 //@   loop 1: invariant 0 <= idx && idx <= len(m.preparationPayloads) && implies(before(len(retvar)) == len(m.preparationPayloads), len(retvar) == len(m.preparationPayloads)) && implies(before(len(retvar)) != len(m.preparationPayloads), len(retvar) == idx) && m.preparationHash != nil
@@ -279,6 +336,8 @@ package consensus
 
 // the other lists a recovery message gives back: one payload per stored entry, in the recovery message's slot
 //@ func (*recoveryMessage).GetCommits
+//@   recvname m
+//@   params p, _
 //@   loops 1
 //@   requires p != nil
 //@   loop 1: invariant 0 <= idx && idx <= len(m.commitPayloads) && implies(before(len(retvar)) == len(m.commitPayloads), len(retvar) == len(m.commitPayloads)) && implies(before(len(retvar)) != len(m.commitPayloads), len(retvar) == idx)
@@ -290,6 +349,8 @@ package consensus
 //@   ensures [C19] @sameSender forall(k, 0, len(result), as(Payload, result[k]).validatorIndex == m.commitPayloads[k].ValidatorIndex)
 //@   ensures [C19] @sameSignature forall(k, 0, len(result), sametable(as(commit, as(Payload, result[k]).message.payload).signature, m.commitPayloads[k].Signature))
 //@ func (*recoveryMessage).GetChangeViews
+//@   recvname m
+//@   params p, _
 //@   loops 1
 //@   requires p != nil
 //@   wraps *
@@ -302,6 +363,8 @@ package consensus
 //@   ensures [C19] @sameSlot forall(k, 0, len(result), result[k] != nil && as(Payload, result[k]).message.cmType == dbft.ChangeViewType && as(Payload, result[k]).message.viewNumber == p.ViewNumber() && as(Payload, result[k]).height == p.Height() && as(Payload, result[k]).hash == nil)
 //@   ensures [C19] @sameSender forall(k, 0, len(result), as(Payload, result[k]).validatorIndex == m.changeViewPayloads[k].ValidatorIndex)
 //@ func (*recoveryMessage).GetPreCommits
+//@   recvname m
+//@   params p, _
 //@   loops 1
 //@   requires p != nil
 //@   requires rmwf(m)
@@ -317,6 +380,7 @@ package consensus
 
 // the recovery message's own encoding: every list goes into the encoded structure and comes back from it
 //@ func NewRecoveryMessage
+//@   params preparationHash
 //@   loops 0
 //@   ensures [C19] @wellFormed result != nil
 // how often a preparation hash went to the encoder / came from the decoder, and where the decoder put it
@@ -324,6 +388,8 @@ package consensus
 //@ ghost gHashReads Int
 //@ ghost gHashTarget Ref
 //@ func (recoveryMessage).EncodeBinary
+//@   recvname m
+//@   params w
 //@   loops 0
 //@   modifies gEncoded, gHashWrites
 //@   at call *.Encode<Uint256>: ghost gHashWrites = gHashWrites + 1
@@ -331,6 +397,8 @@ package consensus
 //@   ensures [C19] @hashWritten implies(result == nil && m.preparationHash != nil, gHashWrites > old(gHashWrites))
 //@   at call *.Encode<recoveryMessageAux>: assert [C19] @allLists sametable(arg0.PreparationPayloads, m.preparationPayloads) && sametable(arg0.PreCommitPayloads, m.preCommitPayloads) && sametable(arg0.CommitPayloads, m.commitPayloads) && sametable(arg0.ChangeViewPayloads, m.changeViewPayloads)
 //@ func (*recoveryMessage).DecodeBinary
+//@   recvname m
+//@   params r
 //@   loops 1
 //@   at call *.Decode<Uint256>: ghost gHashReads = gHashReads + 1
 //@   at call *.Decode<Uint256>: ghost gHashTarget = arg0
@@ -366,15 +434,18 @@ package consensus
 //@   ghost gVerifies = gVerifies + 1
 //@   ghost gVerOK = result == nil
 //@ func (commit).Signature
+//@   recvname c
 //@   loops 0
 //@   ensures [C19] @fixedLength len(result) == 64
 //@ func (amevCommit).Signature
+//@   recvname c
 //@   loops 0
 //@   ensures [C19] @fixedLength len(result) == 64
 
 // ---- blocks: the header is fixed at construction, signing and caching the hash do not touch it ----
 
 //@ func NewBlock
+//@   params timestamp, index, prevHash, nonce, txHashes
 //@   loops 0
 //@   requires timestamp / 1000000000 <= 4294967295
 //@   ensures [C19] @header result != nil && as(neoBlock, result).base.Index == index && as(neoBlock, result).base.PrevHash == prevHash && as(neoBlock, result).base.ConsensusData == nonce && as(neoBlock, result).base.Timestamp == timestamp / 1000000000 && as(neoBlock, result).base.Version == 0
@@ -382,43 +453,57 @@ package consensus
 // the header's Merkle root is the root of the tree over exactly the proposed hashes, in their order
 //@   ensures [C19] @root implies(len(txHashes) != 0, sametable(gTreeOver, txHashes) && as(neoBlock, result).base.MerkleRoot == gLastRootHash)
 //@ func (*neoBlock).SetTransactions
+//@   recvname b
+//@   params txx
 //@   loops 0
 //@   modifies heap neoBlock.transactions
 //@ func (*neoBlock).Sign
+//@   recvname b
+//@   params key
 //@   loops 0
 //@   requires key != nil
 //@   modifies gEncoded, heap neoBlock.signature
 //@ func (*neoBlock).Verify
+//@   recvname b
+//@   params pub, sign
 //@   loops 0
 //@   requires pub != nil && len(sign) >= 64
 //@   modifies gEncoded, gVerifies, gVerOK
 // a signature is accepted only if the key's own check of this block's hash data accepted it
 //@   ensures [C19] @onlyByKey implies(result == nil, gVerifies == old(gVerifies) + 1 && gVerOK)
 //@ func (*neoBlock).Hash
+//@   recvname b
 //@   loops 0
 //@   modifies gEncoded, gHashed, gLastHash, heap neoBlock.hash, heap box.*
 //@   ensures [C19] @cachedOnce implies(old(b.hash) != nil, b.hash == old(b.hash) && result == *old(b.hash))
 // a block whose transactions were set (an empty list included) is hashed: one hash over one encoded value, the header
 //@   ensures [C19] @hashedFromHeader implies(old(b.hash) == nil && !isnil(b.transactions), gHashed == old(gHashed) + 1 && gEncoded == old(gEncoded) + 1 && result == gLastHash && b.hash != nil && *b.hash == result)
 //@ func NewPreBlock
+//@   params timestamp, index, prevHash, nonce, txHashes
 //@   loops 0
 //@   requires timestamp / 1000000000 <= 4294967295
 //@   ensures [C19] @header result != nil && as(preBlock, result).base.Index == index && as(preBlock, result).base.PrevHash == prevHash && as(preBlock, result).base.ConsensusData == nonce && as(preBlock, result).base.Timestamp == timestamp / 1000000000 && as(preBlock, result).base.Version == 0
 //@   ensures [C19] @root implies(len(txHashes) != 0, sametable(gTreeOver, txHashes) && as(preBlock, result).base.MerkleRoot == gLastRootHash)
 //@ func (*amevBlock).SetTransactions
+//@   recvname b
 //@   loops 0
 //@   modifies nothing
 //@ func (*amevBlock).Sign
+//@   recvname b
+//@   params key
 //@   loops 0
 //@   requires key != nil
 //@   modifies gEncoded, heap amevBlock.signature
 //@ func (*amevBlock).Verify
+//@   recvname b
+//@   params pub, sign
 //@   loops 0
 //@   requires pub != nil && len(sign) >= 64
 //@   modifies gEncoded, gVerifies, gVerOK
 // a signature is accepted only if the key's own check of this block's hash data accepted it
 //@   ensures [C19] @onlyByKey implies(result == nil, gVerifies == old(gVerifies) + 1 && gVerOK)
 //@ func (*amevBlock).Hash
+//@   recvname b
 //@   loops 0
 //@   modifies gEncoded, gHashed, gLastHash, heap amevBlock.hash, heap box.*
 //@   ensures [C19] @cachedOnce implies(old(b.hash) != nil, b.hash == old(b.hash) && result == *old(b.hash))
@@ -428,28 +513,36 @@ package consensus
 // ---- byte-level readers check the length before they read ----
 
 //@ func (*Tx64).UnmarshalBinary
+//@   recvname t
+//@   params data
 //@   loops 0
 //@   requires t != nil
 //@   ensures [C19] @lengthChecked implies(result == nil, len(data) == 8)
 //@ func (*preBlock).Verify
+//@   recvname pre
+//@   params _, data
 //@   loops 0
 //@   ensures [C19] @lengthChecked implies(result == nil, len(data) == 4)
 //@ func NewPreCommit
+//@   params data
 //@   loops 0
 //@   requires len(data) >= 4
 //@   ensures [C19] @fresh result != nil
 //@   ensures [C19] @bigEndian as(preCommit, result).magic == be32(data)
 //@ func (preCommit).Data
+//@   recvname c
 //@   loops 0
 //@   ensures [C19] @fourBytes len(result) == 4
 //@   ensures [C19] @bigEndian be32(result) == c.magic
 //@ func (*preBlock).Data
+//@   recvname pre
 //@   loops 0
 //@   ensures [C19] @fourBytes len(result) == 4
 
 // the anti-MEV block: the pre-block's header with the Merkle root recomputed over the final transaction list
 //@ pure Transaction.Hash
 //@ func NewAMEVBlock
+//@   params pre, cnData, m
 //@   loops 2
 //@   requires pre != nil && 0 <= m && m <= len(cnData) && forall(k, 0, m, len(cnData[k]) >= 4)
 //@   requires forall(k, 0, len(as(preBlock, pre).initialTransactions), as(preBlock, pre).initialTransactions[k] != nil)
@@ -466,12 +559,14 @@ package consensus
 // once a proposal is known (its hash list was set, possibly to an empty list) the block constructor gives a block:
 // an empty proposal is a proposal (C17: the example's chain goes on when its pools are empty)
 //@ func newBlockFromContext
+//@   params ctx
 //@   loops 0
 //@   requires ctx != nil && ctx.Timestamp / 1000000000 <= 4294967295
 //@   ensures [C19,C17] @blockOnceProposalKnown implies(old(!isnil(ctx.TransactionHashes)), result != nil)
 //@   ensures [C19] @fromTheContext implies(old(!isnil(ctx.TransactionHashes)), as(neoBlock, result).base.Index == old(ctx.BlockIndex) && as(neoBlock, result).base.PrevHash == old(ctx.PrevHash) && as(neoBlock, result).base.ConsensusData == old(ctx.Nonce) && as(neoBlock, result).base.Timestamp == old(ctx.Timestamp) / 1000000000)
 // a payload made for the context carries the context's height, view and own index, the given type and body
 //@ func defaultNewConsensusPayload
+//@   params c, t, msg
 //@   loops 0
 //@   requires c != nil && 0 <= c.MyIndex && c.MyIndex <= 65535
 //@   ensures [C19] @forTheContext result != nil && as(Payload, result).height == old(c.BlockIndex) && as(Payload, result).message.viewNumber == old(c.ViewNumber) && as(Payload, result).validatorIndex == old(c.MyIndex) && as(Payload, result).message.cmType == t && as(Payload, result).message.payload == msg && as(Payload, result).hash == nil
